@@ -234,6 +234,117 @@ fn huge_cases() -> impl Iterator<Item = TextCase> {
   v.into_iter()
 }
 
+// ---------------------------------------------------------------- (c') inputs that could kill the process rather than unwind
+
+/// Deeply nested input (footer segments and authentic payloads nested 200 .. 1 000 000 levels deep): a stack overflow is
+/// not a panic that `catch_unwind` could see - the process dies. These inputs are therefore parsed in a helper process
+/// (`pv c09-deep`), on a thread with the 2 MiB stack Rust gives threads by default, announcing each case before it runs.
+#[derive(Clone, Debug, Serialize, Deserialize)]
+pub struct DeepCase {
+  /// u32::MAX = the whole list in one helper process; otherwise that one case
+  pub index: u32,
+}
+
+pub struct DeepInputs;
+
+const DEPTHS: [usize; 4] = [200, 10_000, 200_000, 1_000_000];
+
+/// (protocol, layer, token, expected footer, description) of deep case `i`
+fn deep_case(i: usize) -> Option<(Proto, Layer, String, Option<String>, String)> {
+  let shapes = 6;
+  let per_proto = DEPTHS.len() * shapes;
+  let (pl, rest) = (i / per_proto, i % per_proto);
+  if pl >= 8 * 3 {
+    return None;
+  }
+  let (proto, layer) = (Proto::ALL[pl / 3], Layer::ALL[pl % 3]);
+  let (depth, shape) = (DEPTHS[rest / shapes], rest % shapes);
+  let km = keys::material(proto, &SEED);
+  let lk = km.lib().ok()?;
+  let nonce = &[8u8; 32][..if proto == Proto::V2L { 24 } else { 32 }];
+  let nest = |open: &str, close: &str, unbalanced: bool| -> String { format!("{}{}{}", open.repeat(depth), "1", if unbalanced { String::new() } else { close.repeat(depth) }) };
+  let (token, footer, what) = match shape {
+    // a footer SEGMENT that decodes to deep nesting, presented with that footer / with none
+    0 => {
+      let f = nest("[", "]", false);
+      (core_build(&lk, nonce, "{\"data\":\"deep\"}", Some(&f), None).ok()?, Some(f), "authentic token whose footer is an array nested")
+    }
+    1 => {
+      let f = nest("{\"a\":", "}", false);
+      (core_build(&lk, nonce, "{\"data\":\"deep\"}", Some(&f), None).ok()?, Some(f), "authentic token whose footer is an object nested")
+    }
+    2 => (join_token(proto.header(), &[0u8; 200], Some(&b64(nest("[", "]", true).as_bytes()))), None, "unauthenticated token whose footer segment opens arrays nested"),
+    // an AUTHENTIC payload that is deeply nested JSON (the builder layers' parsers read it as claims)
+    3 => (core_build(&lk, nonce, &nest("[", "]", false), None, None).ok()?, None, "authentic payload: arrays nested"),
+    4 => (core_build(&lk, nonce, &nest("{\"a\":", "}", false), None, None).ok()?, None, "authentic payload: objects nested"),
+    _ => (core_build(&lk, nonce, &format!("{{\"exp\":{}}}", nest("[", "]", false)), None, None).ok()?, None, "authentic payload: exp is an array nested"),
+  };
+  Some((proto, layer, token, footer, format!("{} {} - {} {} deep", proto.label(), layer.label(), what, depth)))
+}
+
+/// Body of `pv c09-deep all|<index>`
+pub fn deep_child_main(args: &[String]) -> i32 {
+  use std::io::Write;
+  let only: Option<usize> = args.first().and_then(|a| a.parse().ok());
+  let worker = std::thread::Builder::new().stack_size(2 * 1024 * 1024).spawn(move || {
+    let mut i = only.unwrap_or(0);
+    while let Some((proto, layer, token, footer, desc)) = deep_case(i) {
+      println!("CASE {i} {desc}");
+      let _ = std::io::stdout().flush();
+      match parse_any(proto, layer, &token, footer.as_deref()) {
+        Ok(_) => println!("RESULT {i} returned"),
+        Err((loc, msg)) => println!("RESULT {i} PANIC {loc} {msg}"),
+      }
+      let _ = std::io::stdout().flush();
+      if only.is_some() {
+        break;
+      }
+      i += 1;
+    }
+    println!("DONE");
+  });
+  match worker.map(|w| w.join()) {
+    Ok(Ok(())) => 0,
+    _ => 3,
+  }
+}
+
+impl Sub for DeepInputs {
+  type Case = DeepCase;
+  fn name(&self) -> String {
+    "C09/deep-inputs-in-a-helper-process".into()
+  }
+  fn check(&self, c: &DeepCase, cl: &mut Classes) -> Verdict {
+    let exe = match std::env::current_exe() {
+      Ok(e) => e,
+      Err(_) => return Verdict::Discard,
+    };
+    let arg = if c.index == u32::MAX { "all".to_string() } else { c.index.to_string() };
+    let out = match std::process::Command::new(exe).args(["c09-deep", &arg]).output() {
+      Ok(o) => o,
+      Err(_) => return Verdict::Discard,
+    };
+    let text = String::from_utf8_lossy(&out.stdout).to_string();
+    let cases = text.lines().filter(|l| l.starts_with("CASE ")).count();
+    cl.tag(format!("deep cases run: {}", if cases >= 500 { ">=500" } else { "<500" }));
+    cl.nontrivial(cases > 0);
+    if let Some(p) = text.lines().find(|l| l.starts_with("RESULT ") && l.contains(" PANIC ")) {
+      let idx: u32 = p.split(' ').nth(1).and_then(|x| x.parse().ok()).unwrap_or(0);
+      let desc = text.lines().find(|l| l.starts_with(&format!("CASE {idx} "))).unwrap_or("").to_string();
+      return Verdict::Violation { sig: format!("C09:panic:{}", p.split(' ').nth(3).unwrap_or("?")), detail: format!("{desc}: {p}") };
+    }
+    if !text.lines().any(|l| l == "DONE") {
+      // the helper died: the last announced case is the one that killed it
+      let last = text.lines().filter(|l| l.starts_with("CASE ")).last().unwrap_or("CASE ? (none announced)").to_string();
+      return Verdict::Violation {
+        sig: "C09:process-died-on-deep-input".into(),
+        detail: format!("the helper process ended with {:?} (stack overflow / abort - nothing a caller could catch) while parsing: {}", out.status, last),
+      };
+    }
+    Verdict::Pass
+  }
+}
+
 // ---------------------------------------------------------------- (d) hex key strings
 
 #[derive(Clone, Debug, Serialize, Deserialize)]
@@ -473,7 +584,7 @@ pub fn fuzz_seeds() -> Vec<Vec<u8>> {
 // ----------------------------------------------------------------
 
 pub fn subs() -> Vec<Box<dyn DynSub>> {
-  vec![Box::new(ByLength), Box::new(Cuts), Box::new(AnyText), Box::new(HexKeys), Box::new(HostileClaims)]
+  vec![Box::new(ByLength), Box::new(Cuts), Box::new(AnyText), Box::new(HexKeys), Box::new(HostileClaims), Box::new(DeepInputs)]
 }
 
 pub fn run(ctx: &Ctx) -> EvidenceMeta {
@@ -487,6 +598,11 @@ pub fn run(ctx: &Ctx) -> EvidenceMeta {
     Box::new(|| ctx.prop(&HexKeys, hex_case(), ctx.n(5_000, 200_000))),
     Box::new(|| ctx.fuzz_inputs(&AnyText, "fz_anytoken", fuzz_decode)),
     Box::new(|| ctx.enumerate(&HostileClaims, hostile_grid(), false)),
+    Box::new(|| {
+      if !ctx.is_child() {
+        ctx.enumerate(&DeepInputs, std::iter::once(DeepCase { index: u32::MAX }), false)
+      }
+    }),
     Box::new(|| ctx.prop(&HostileClaims, claim_case(), ctx.n(15_000, 300_000))),
   ];
   run_jobs(jobs);
@@ -496,6 +612,7 @@ pub fn run(ctx: &Ctx) -> EvidenceMeta {
            hex-key-strings: Key::<N>::try_from for N in {24,32,48,49,64} on valid/invalid hex of every length 0..=200 (exhaustive), valid hex of every length to 1100 and around every power of two to 2^20, plus generated strings to 3000 characters; \
            arbitrary-text: generated Unicode, 0-6 segments, right header + base64-alphabet noise / random bytes / padding / trailing dots, footer segments that decode to JSON documents (key sets, deep nesting, many empty containers), their unbalanced relatives and special strings, 1 MiB inputs; \
            authentic-token-hostile-claims: authentically encrypted/signed payloads whose exp/nbf/other members carry calendar extremes (year 0000/9999 with offsets, leap seconds, 40 fraction digits), any well-formed or ill-formed timestamp, arbitrary JSON, or that are not objects / not JSON at all. \
+           deep inputs: footer segments and authentic payloads nested 200 .. 1 000 000 levels deep, parsed on a 2 MiB-stack thread of a helper process that announces each case - if the helper dies, the announced case is the violation. \
            Oracle: catch_unwind around the entry point; any unwind is a violation keyed by panic location. \
            Non-trivial = the input has the right header and a decodable payload (reaches the slicing code) or is a hex-key string; distinct by input."
       .into(),
